@@ -96,6 +96,22 @@ func TestVerifC07(t *testing.T) {
 		}
 		c.StopAt = at + time.Duration(rr.Int63n(int64(3*time.Second)))
 		c.ReportK1 = true
+		if i%10 == 3 {
+			// several transmissions in flight fail together: a slow socket (600 ms,
+			// longer than the spread of the random delays) that starts failing
+			c.ID = fmt.Sprintf("multifail/%d", i)
+			c.UnicastOnly, c.WriteErrN = i%20 == 3, 0
+			c.WriteLat = 600 * vMs
+			c.WriteErrKind, c.WriteErrAll = []string{"nobufs", "other"}[i/10%2], true
+			t0 := 5 * time.Second
+			c.WriteErrAfter = t0
+			c.Steps = nil
+			for k := 0; k < 2+rr.Intn(4); k++ {
+				c.Steps = append(c.Steps, advStep{At: t0 + time.Duration(k)*vMs, Kind: "rs", Src: vSrc(0, k)})
+			}
+			c.Steps = append(c.Steps, advStep{At: t0 + 4*time.Second, Kind: "rs", Src: vSrc(1, 77)})
+			c.StopAt = t0 + 7*time.Second
+		}
 		if r.Part != "det" && i%3 == 0 {
 			// K1 reproducer: a solicitation delivered in the very instant the
 			// delayed first periodic RA (t = 3 s) fires, then silence.
@@ -120,7 +136,7 @@ func TestVerifC07(t *testing.T) {
 			continue
 		}
 		advC07(r, c, res)
-		if vTiming {
+		if vTiming && c.WriteLat == 0 && c.WriteErrKind == "" {
 			cc := &c06Case{ID: c.ID, Min: c.Min, Max: c.Max}
 			if !c.UnicastOnly {
 				c06Check(r, cc, res.ev, res.returned)
@@ -150,7 +166,7 @@ func TestVerifC08(t *testing.T) {
 	for i := 0; i < n; i++ {
 		c := &advCase{ID: fmt.Sprintf("stop/%d", i), Fwd: true, Terminate: i%2 == 0, Seed: time.Duration(rr.Int63n(1e9)), Min: 20 * time.Second, Max: 30 * time.Second}
 		c.UnicastOnly = rr.Intn(8) == 0
-		class := i / 2 % 5
+		class := i / 2 % 6
 		t0 := 5*time.Second + time.Duration(rr.Int63n(int64(5*time.Second)))
 		switch class {
 		case 0: // idle
@@ -194,6 +210,14 @@ func TestVerifC08(t *testing.T) {
 			if c.UnicastOnly {
 				c.StopAt = t0
 			}
+		case 5: // several slow transmissions in flight at the stop request, all of which then fail
+			c.WriteLat = []time.Duration{600 * vMs, time.Second, 3 * time.Second}[rr.Intn(3)]
+			c.WriteErrKind, c.WriteErrAfter, c.WriteErrAll, c.WriteErrUnicast = []string{"nobufs", "other", "perm"}[rr.Intn(3)], t0, true, true
+			for j, k := 0, 2+rr.Intn(3); j < k; j++ {
+				c.Steps = append(c.Steps, advStep{At: t0 + time.Duration(j)*vMs, Kind: "rs", Src: vSrc(j%2, i+j)})
+			}
+			// every answer has begun by t0+500ms+k ms and none has finished before t0+600ms
+			c.StopAt = t0 + 520*vMs + time.Duration(rr.Int63n(int64(70*vMs)))
 		case 4: // solicitation arriving in the same instant as the stop request
 			c.FwdLat, c.WriteLat = lats[rr.Intn(4)], lats[rr.Intn(4)]
 			c.StopAt = t0
@@ -424,9 +448,16 @@ func TestVerifC10(t *testing.T) {
 		case "read":
 			c.Steps = append(c.Steps, advStep{At: fl.at, Kind: "readerr", Err: parts[1]})
 			expect = map[string]string{"syscall": "redial", "perm": "error", "other": "error"}[parts[1]]
-		case "timeouts":
+		case "timeouts", "timeoutsinv":
 			fmt.Sscan(parts[1], &nTimeouts)
 			for j := 0; j < nTimeouts; j++ {
+				if parts[0] == "timeoutsinv" {
+					// invalid messages between the time-outs are dropped inside the
+					// receive loop: they must neither reset nor stretch the back-off
+					for q := 0; q < 1+(j*7+nTimeouts)%40; q++ {
+						c.Steps = append(c.Steps, advStep{At: fl.at, Kind: "msg", Msg: []string{"rs", "ra", "ns"}[q%3], Src: fmt.Sprintf("fe80::bad:%x", q+1), Hop: 64})
+					}
+				}
 				c.Steps = append(c.Steps, advStep{At: fl.at, Kind: "readerr", Err: "timeout"})
 			}
 			if nTimeouts >= 5 {
@@ -474,7 +505,7 @@ func TestVerifC10(t *testing.T) {
 				break
 			}
 		}
-		if parts[0] == "timeouts" && nTimeouts >= 5 {
+		if strings.HasPrefix(parts[0], "timeouts") && nTimeouts >= 5 {
 			// the fifth time-out is returned after back-offs 0+50+100+150 ms, the
 			// error after one more back-off of 200 ms
 			for _, e := range ev {
@@ -572,7 +603,7 @@ func TestVerifC10(t *testing.T) {
 			}
 		}
 		// back-off between retried time-outs: 0, 50, 100, 150, 200 ms
-		if parts[0] == "timeouts" && vTiming {
+		if strings.HasPrefix(parts[0], "timeouts") && vTiming {
 			var ts []time.Duration
 			for _, e := range ev {
 				if e.Kind == "read_error" && e.Err == vfake.ErrTimeout.Error() {
@@ -606,6 +637,7 @@ func TestVerifC10(t *testing.T) {
 	}
 
 	kinds := []string{"read:syscall", "read:perm", "read:other", "timeouts:1", "timeouts:2", "timeouts:3", "timeouts:4", "timeouts:5", "timeouts:6",
+		"timeoutsinv:1", "timeoutsinv:3", "timeoutsinv:4", "timeoutsinv:5",
 		"write:nobufs", "write:perm", "write:other", "writepending:nobufs", "writepending:other", "writeall:nobufs", "writeall:perm", "link", "watchclose"}
 	// the same read-side faults against a Monitor task
 	mreps := r.Pick(4, 40)
